@@ -1,6 +1,7 @@
 import Resolvo.Oracles
 import Resolvo.CacheModel
 import Resolvo.Props.C20
+import Resolvo.MDet.OnceSpec
 /-!
 # C09 — metadata is fetched lazily, causally and at most once
 
@@ -9,7 +10,9 @@ import Resolvo.Props.C20
 earlier (the root's or a previously fetched solvable's), every `get_candidates n` is for a name
 mentioned by dependency information obtained earlier, and no call repeats. On the conflict-free
 family the fetched solvables must be exactly the preferred closure (C07).
-Proved here (cache level): a repeated cache query never reaches the provider.
+Proved here: (cache level) a repeated cache query never reaches the provider; (run level, the whole model of
+`solve`, every history of solves on one solver with a synchronous provider) no `get_candidates` / `get_dependencies`
+request is ever issued twice, and whatever was requested is in the cache afterwards.
 -/
 namespace Resolvo.C09
 open Resolvo Resolvo.CacheM
@@ -18,5 +21,30 @@ theorem at_most_once_cache (U : Universe) (peek : Bool) (st : St) :
     (∀ n, (step U peek (step U peek st (.candidates n)).1 (.candidates n)).1.log = (step U peek st (.candidates n)).1.log) ∧
     (∀ s, (step U peek (step U peek st (.deps s)).1 (.deps s)).1.log = (step U peek st (.deps s)).1.log) :=
   Resolvo.C20.repeat_no_call U peek st
+
+/-! ## Run level: at most once per solver -/
+open Resolvo.MDet in
+/-- a solver that has not issued a request yet (any cancellation plan, activity parameters, …) meets the invariant -/
+theorem fresh_once (s : S) (h1 : s.asyncMode = false) (h2 : s.glog = []) : Once s :=
+  ⟨h1, by rw [h2]; exact List.Pairwise.nil, by (intro n h; rw [h2] at h; cases h), by (intro n h; rw [h2] at h; cases h)⟩
+
+open Resolvo.MDet in
+/-- **At most once per solver.** Along every history of solves on one solver (any problems, any outcomes including
+    Cancelled and Unsolvable, any cancellation plans, any fuel) with a synchronous provider, the requests in the call
+    log are pairwise distinct: `get_candidates` is never issued twice for a package nor `get_dependencies` twice for a
+    solvable — and everything that was requested is answered from the cache from then on. -/
+theorem history_at_most_once (U : Universe) (fuel : Nat) (ps : List Problem) (s : S) (h : Once s) :
+    Once (ps.foldl (fun st p => (solveRun U p fuel st).2) s) := by
+  induction ps generalizing s with
+  | nil => exact h
+  | cons p ps ih => exact ih _ (solveRun_once U p fuel s h)
+
+open Resolvo.MDet in
+theorem no_request_twice (U : Universe) (fuel : Nat) (ps : List Problem) (s : S) (h1 : s.asyncMode = false) (h2 : s.glog = []) :
+    (callsOf (ps.foldl (fun st p => (solveRun U p fuel st).2) s).glog).Nodup :=
+  (history_at_most_once U fuel ps s (fresh_once s h1 h2)).nodup
+
+/-- non-vacuity: the default solver state is fresh -/
+example : Resolvo.MDet.Once {} := fresh_once {} rfl rfl
 
 end Resolvo.C09
